@@ -212,7 +212,15 @@ func simplify(t *Term) *Term {
 		case "elemaddr":
 			return &Term{Op: "elem", Args: a.Args, Val: t.Val}
 		}
+	case "len":
+		// a conversion between types with the same underlying type keeps the value: len(string(cmd)) is len(cmd)
+		if in := changeTypeOperand(t.Args[0]); in != nil {
+			return simplify(&Term{Op: "len", Args: []*Term{in}, Val: t.Val})
+		}
 	case "elem":
+		if in := changeTypeOperand(t.Args[0]); in != nil {
+			return simplify(&Term{Op: "elem", Args: []*Term{in, t.Args[1]}, Val: t.Val})
+		}
 		// constant string indexed by a constant: the byte
 		if a, i := t.Args[0], t.Args[1]; a.Op == "const" && i.Op == "const" && strings.HasPrefix(a.Name, "\"") {
 			if s, err := strconv.Unquote(a.Name); err == nil {
@@ -221,12 +229,42 @@ func simplify(t *Term) *Term {
 				}
 			}
 		}
+	case "call":
+		// bytes.Equal(a, b) is string(a) == string(b) (the form the standard library documents it as)
+		if t.Name == "bytes.Equal" && len(t.Args) == 2 {
+			return simplify(&Term{Op: "eq", Val: t.Val, Args: []*Term{
+				{Op: "conv", Name: "string", Args: []*Term{t.Args[0]}, Val: t.Val},
+				{Op: "conv", Name: "string", Args: []*Term{t.Args[1]}, Val: t.Val}}})
+		}
 	case "eq":
+		// string(cmd) == "/" is cmd == "/"; string(a) == string(b) is a == b when a and b have one type
+		a, b := t.Args[0], t.Args[1]
+		ia, ib := changeTypeOperand(a), changeTypeOperand(b)
+		switch {
+		case ia != nil && b.Op == "const":
+			return simplify(&Term{Op: "eq", Args: []*Term{ia, b}, Val: t.Val})
+		case ib != nil && a.Op == "const":
+			return simplify(&Term{Op: "eq", Args: []*Term{a, ib}, Val: t.Val})
+		case ia != nil && ib != nil && ia.Val != nil && ib.Val != nil && types.Identical(ia.Val.Type(), ib.Val.Type()):
+			return simplify(&Term{Op: "eq", Args: []*Term{ia, ib}, Val: t.Val})
+		}
 		if t.Args[0].String() > t.Args[1].String() {
 			return &Term{Op: "eq", Args: []*Term{t.Args[1], t.Args[0]}, Val: t.Val}
 		}
 	}
 	return t
+}
+
+// changeTypeOperand returns x when t is T(x) for a conversion that only changes the named type (same
+// underlying type, same value).
+func changeTypeOperand(t *Term) *Term {
+	if t == nil || t.Op != "conv" || len(t.Args) != 1 {
+		return nil
+	}
+	if _, ok := t.Val.(*ssa.ChangeType); !ok {
+		return nil
+	}
+	return t.Args[0]
 }
 
 func constTerm(c *ssa.Const) *Term {
@@ -286,6 +324,19 @@ func rootParent(f *ssa.Function) *ssa.Function {
 // know it; filled by the loader when a frozen anchor name is missing and exactly one function of
 // the same package, receiver and signature has an unknown name.
 var Alias = map[*ssa.Function]string{}
+
+// FieldAlias maps a renamed unexported struct field to the canonical (frozen) name under which the rules
+// know it; filled by the loader when a frozen field name is missing from its struct and exactly one new
+// field of the same type took its place.
+var FieldAlias = map[*types.Var]string{}
+
+// FieldName is the canonical name of a struct field.
+func FieldName(v *types.Var) string {
+	if a, ok := FieldAlias[v]; ok {
+		return a
+	}
+	return v.Name()
+}
 
 func binopName(op token.Token) string {
 	switch op {
